@@ -26,6 +26,7 @@ Lb(sf) == E("label", sf, 0, <<>>)
 Sq(l, r) == E("seq", FALSE, 0, <<l, r>>)
 MR(a, b) == E("mapreduce", FALSE, 0, <<M(a), M(b)>>)
 Stk(bs, k) == E("stack", FALSE, k, bs)
+Cu(sf) == E("custom", sf, 0, <<>>)
 Pipelines(z) == << Sq(M(TRUE), M(TRUE)),
                    Sq(Sq(M(TRUE), Tr(TRUE)), Ap(TRUE)),
                    Sq(Lb(TRUE), M(TRUE)),
@@ -35,7 +36,9 @@ Pipelines(z) == << Sq(M(TRUE), M(TRUE)),
                    Sq(Ap(TRUE), Sq(M(FALSE), M(TRUE))),
                    Stk(<<M(TRUE)>>, 2),
                    Sq(M(TRUE), Stk(<<M(TRUE), Ap(TRUE)>>, 2)),
-                   Sq(Sq(Lb(TRUE), Tr(TRUE)), Sq(M(TRUE), MR(FALSE, TRUE))) >>
+                   Sq(Sq(Lb(TRUE), Tr(TRUE)), Sq(M(TRUE), MR(FALSE, TRUE))),
+                   Sq(Stk(<<Cu(TRUE)>>, 2), Cu(TRUE)),
+                   Sq(Cu(TRUE), Stk(<<M(TRUE), Cu(TRUE)>>, 2)) >>
 Pipe == Pipelines(0)[Pipeline]
 \* the project pipeline is e >> Probe; F its trunk function, C the closed first-training denotation
 F == Compose(Probe, ProbeId, Expand(Pipe, 1))
@@ -54,10 +57,13 @@ Gen(x, g) == IF x.tag = "st"
              ELSE [x EXCEPT !.args = [i \in DOMAIN x.args |-> Gen(x.args[i], g)]]
 SetToSeq(S) == LET RECURSIVE Fn(_) Fn(R) == IF R = {} THEN <<>> ELSE LET x == CHOOSE y \in R : TRUE IN <<x>> \o Fn(R \ {x}) IN Fn(S)
 
-Ev(op, g, res, exp) == [op |-> op, g |-> g, resolved |-> res, expect |-> exp]
+Ev(op, g, res, exp) == [op |-> op, g |-> g, resolved |-> res, expect |-> exp, w |-> "none"]
 Init == gens = 0 /\ hist = <<>>
+\* a training may be given an ordinal window (none / upper bound / both bounds): it selects the data, it does not change
+\* what is persisted where.  The window is a function of the position (no additional states), varying over pipelines.
+Window == CASE (Len(hist) + Pipeline) % 3 = 0 -> "none" [] (Len(hist) + Pipeline) % 3 = 1 -> "upper" [] OTHER -> "both"
 Train == /\ gens < MaxGen /\ gens' = gens + 1
-         /\ hist' = Append(hist, Ev("train", 0, gens + 1, SetToSeq({Gen(s, gens + 1) : s \in P})))
+         /\ hist' = Append(hist, [Ev("train", 0, gens + 1, SetToSeq({Gen(s, gens + 1) : s \in P})) EXCEPT !.w = Window])
 \* g = 0 means "latest"
 Load(op, g, term) == /\ gens >= 1 /\ g \in 0..gens /\ UNCHANGED gens
                      /\ LET r == IF g = 0 THEN gens ELSE g IN hist' = Append(hist, Ev(op, g, r, <<Gen(term, r)>>))
